@@ -1131,14 +1131,16 @@ def Editor.setOptions (e : Editor D L) (o : Options) : Editor D L :=
   let sh := if sh.options.languageMode != o.languageMode then { sh with syl := env.clearSyl sh.syl } else sh
   Editor.leaveIfEmpty env { e with shared := { sh with options := o } }
 
-/-- `Editor::select(n)`; `Bool` = `Ok` -/
+/-- `Editor::select(n)`; `Bool` = `Ok`.  The auto-commit runs only once the candidate list has closed
+    (`self.state.is_entering() &&`, as in `process_keyevent`; before the C01 fix it also ran under a list
+    that stayed open, cutting the buffer from under the selector) -/
 def Editor.select (e : Editor D L) (n : Nat) : Outcome (Editor D L × Bool) :=
   match e.state with
   | .selecting s =>
     match Selecting.select env s e.shared n with
     | .ok (s', sh, t) =>
       let (sh, st) := applyTrans sh (.selecting s') t
-      let r := if sh.last == .absorb then Shared.tryAutoCommit env sh else .ok sh
+      let r := if st == .entering && sh.last == .absorb then Shared.tryAutoCommit env sh else .ok sh
       match r with
       | .ok sh => .ok ({ shared := sh, state := st }, sh.last != .bell)
       | .panic p => .panic p
